@@ -100,7 +100,8 @@ def reader(py2str_as_py3str: bool, py3str_as_py2str: bool) -> dict[bytes, list]:
         O["LONGLONG"]: _BSTR + [("PUSH", ("call", "int", (_PAYLOAD,)))],
         O["FLOAT"]: [("READ", ("const", 8)), ("PUSH", ("unpack0", ("const", FLOAT_FORMAT), ("R", 0)))],
         O["COMPLEX"]: [("READ", ("const", 16)),
-                       ("PUSH", ("call", "complex", (("star", ("unpack", ("const", COMPLEX_FORMAT), ("R", 0))),)))],
+                       ("PUSH", ("call", "complex", (("index", ("unpack", ("const", COMPLEX_FORMAT), ("R", 0)), ("const", 0)),
+                                                      ("index", ("unpack", ("const", COMPLEX_FORMAT), ("R", 0)), ("const", 1)))))],
         O["BYTES"]: _BSTR + [("PUSH", _PAYLOAD)],
         O["PY3STRING"]: _BSTR + [("PUSH", _PAYLOAD if py3str_as_py2str else utf8)],
         O["PY2STRING"]: _BSTR + [("PUSH", latin1 if py2str_as_py3str else _PAYLOAD)],
